@@ -7,6 +7,7 @@ package libp2p
 // few microseconds of real time that pass are immaterial.
 
 import (
+	"sync"
 	"encoding/json"
 	"sort"
 	"testing"
@@ -65,6 +66,41 @@ func c17Init(t *testing.T) {
 		c17Addr[addr] = len(c17Peers)
 		c17Peers = append(c17Peers, id)
 	}
+}
+
+// c17Race: a timed block has just lapsed; a look-up for that peer and a fresh placement (permanent
+// or timed) happen at the same instant, many times over.  Whatever the order, the fresh block must
+// be in force afterwards.
+func c17Race(t *testing.T, rounds int) map[string]any {
+	c17Init(t)
+	s := &Service{blockMap: make(map[peer.ID]blockInfo), logger: util.NewTestLogger(discard{})}
+	g := newGater(s.logger)
+	g.setBlocker(s)
+	id := c17Peers[0]
+	lost := 0
+	for i := 0; i < rounds; i++ {
+		s.blockMu.Lock()
+		s.blockMap[id] = blockInfo{reason: "stake", start: time.Now().Add(-time.Hour), duration: time.Minute}
+		s.blockMu.Unlock()
+		dur := time.Duration(0)
+		if i%3 == 2 {
+			dur = time.Hour
+		}
+		var wg sync.WaitGroup
+		start := make(chan struct{})
+		wg.Add(2)
+		go func() { defer wg.Done(); <-start; _ = g.InterceptSecured(network.DirInbound, id, nil) }()
+		go func() { defer wg.Done(); <-start; s.blockPeer(id, dur, "verif") }()
+		close(start)
+		wg.Wait()
+		if !s.isBlocked(id) {
+			lost++
+		}
+		s.blockMu.Lock()
+		delete(s.blockMap, id)
+		s.blockMu.Unlock()
+	}
+	return map[string]any{"fresh_blocks_lost": lost, "rounds": rounds}
 }
 
 func c17Run(t *testing.T, in c17In) (res []c17Ans) {
@@ -227,6 +263,7 @@ func TestVerifC17(t *testing.T) {
 		in := c17In{Tag: "random", Ops: ops}
 		out.emit(in, map[string]any{"answers": c17Run(t, in)})
 	}
+	out.emit(c17In{Tag: "race-expiry-vs-block", Ops: []c17Op{}}, c17Race(t, vcount(30000, 300000)))
 	// which block a failed handshake places: the real inbound handler and the real Connect, judged
 	// by the handshake model (impostors, bad signatures, unstaked providers, in every combination)
 	c04Generate(t, out, true)
